@@ -80,9 +80,12 @@ func contains(s []int, v int) bool {
 func paramVars(fi *FuncInfo) []*types.Var { return fi.params }
 
 func isSliceLike(t types.Type) bool {
-	switch t.Underlying().(type) {
+	switch u := t.Underlying().(type) {
 	case *types.Slice:
 		return true
+	case *types.Pointer: // *T with T a struct of the repository: field writes are returned to the caller
+		_, ok := u.Elem().Underlying().(*types.Struct)
+		return ok && inModule(u.Elem())
 	}
 	return false
 }
@@ -116,6 +119,11 @@ func (x *X) writesThrough(fi *FuncInfo, p *types.Var) bool {
 			for _, l := range n.Lhs {
 				if ix, ok := l.(*ast.IndexExpr); ok && rootVar(info, ix) == p {
 					found = true
+				}
+				if se, ok := l.(*ast.SelectorExpr); ok { // p.f = v
+					if sel, ok := info.Selections[se]; ok && sel.Kind() == types.FieldVal && rootVar(info, se.X) == p {
+						found = true
+					}
 				}
 			}
 		case *ast.IncDecStmt:
